@@ -149,6 +149,28 @@ def main():
     kl.append("")
     kl.append(f"{len(kf['fixed'])} `fixed:` entries record the repaired defects (one `fix:` commit each); they suppress nothing.")
     s = re.sub(r"<!-- KNOWN:BEGIN -->.*<!-- KNOWN:END -->", lambda m: "<!-- KNOWN:BEGIN -->\n" + "\n".join(kl) + "\n<!-- KNOWN:END -->", s, flags=re.S)
+    # measured sizes: quick figures from the evidence files as they stand, thorough wall times from thorough_times.json (copied from the
+    # log of the last complete thorough sweep)
+    tt = {}
+    tp = os.path.join(VERIF, "thorough_times.json")
+    if os.path.exists(tp):
+        tt = json.load(open(tp))
+    rows = ["", "| id | quick: wall (16 cores) | quick: cases / states / transitions | thorough: wall, cases |", "|---|---|---|---|"]
+    for i in range(1, 21):
+        cid = f"C{i:02d}"
+        ep = os.path.join(VERIF, "evidence", cid + ".json")
+        if not os.path.exists(ep):
+            continue
+        e = json.load(open(ep))
+        c = e["coverage"]
+        parts = [f"{c.get('evaluations')} evaluations"]
+        if c.get("states"):
+            parts.append(f"{c['states']} states")
+        if c.get("transitions"):
+            parts.append(f"{c['transitions']} transitions")
+        t = tt.get(cid, {})
+        rows.append(f"| {cid} | {e.get('wall_s')} s ({e.get('tier')}) | {' / '.join(parts)} | {t.get('wall', '–')} s, {t.get('evaluations', '–')} evaluations |")
+    s = re.sub(r"<!-- SIZES:BEGIN -->.*<!-- SIZES:END -->", lambda m: "<!-- SIZES:BEGIN -->\n" + "\n".join(rows) + "\n<!-- SIZES:END -->", s, flags=re.S)
     open(p, "w").write(s)
     print("seeds:", len(glob.glob(os.path.join(VERIF, "seeded", "*"))), "mutants:", len(json.load(open(rp))) if os.path.exists(rp) else 0)
 
